@@ -65,6 +65,23 @@ def lattice_mesh(rng, cx, cy, holes=0, jitter=False, st="default"):
     for _ in range(holes):
         if len(tri) > 2:
             tri.pop(rng.randrange(len(tri)))
+    if jitter:
+        # keep the triangulation valid: no degenerate triangle, no overlap (a jittered point must
+        # stay strictly inside the star of its lattice position: every incident triangle keeps area)
+        base = [[x * step, y * step] for y in range(cy + 1) for x in range(cx + 1)]
+
+        def signed(P, t):
+            (x1, y1), (x2, y2), (x3, y3) = P[t[0]], P[t[1]], P[t[2]]
+            return (x2 - x1) * (y3 - y1) - (x3 - x1) * (y2 - y1)
+        changed = True
+        while changed:
+            changed = False
+            for t in tri:
+                if signed(pts, t) * signed(base, t) <= 0:
+                    for v in t:
+                        if pts[v] != base[v]:
+                            pts[v] = list(base[v])
+                            changed = True
     return dict(t="mesh", pts=pts, tri=tri, st=st)
 
 
